@@ -388,18 +388,21 @@ Definition picture_ok (w h : N) (p : picture) : bool :=
   regs_ok (p_regs p).
 
 (* pixel for pixel equal to `expected` (rows of colours at 0..100 resolution) *)
+Fixpoint eq_cols (evs : list (N * N * rgb)) (y x : N) (l : list rgb) : bool :=
+  match l with
+  | [] => true
+  | v :: r => (match pixel_at evs x y with Some u => rgb_eqb u v | None => false end)
+              && eq_cols evs y (x + 1) r
+  end.
+
+Fixpoint eq_rows (evs : list (N * N * rgb)) (y : N) (l : list (list rgb)) : bool :=
+  match l with
+  | [] => true
+  | row :: r => eq_cols evs y 0 row && eq_rows evs (y + 1) r
+  end.
+
 Definition picture_eq (expected : list (list rgb)) (p : picture) : bool :=
-  let fix rows (y : N) (l : list (list rgb)) : bool :=
-    match l with
-    | [] => true
-    | row :: r =>
-        (let fix cols (x : N) (l : list rgb) : bool :=
-           match l with
-           | [] => true
-           | v :: r' => (match pixel_at (p_events p) x y with Some u => rgb_eqb u v | None => false end)
-                        && cols (x + 1) r'
-           end in cols 0 row) && rows (y + 1) r
-    end in rows 0 expected.
+  eq_rows (p_events p) 0 expected.
 
 (* ---------- SixelImageHandler::draw ---------- *)
 
